@@ -68,10 +68,10 @@ def sub_to_lib(x):
     if t == 0x56:
         return ud.SOPClassExtendedNegotiationSubItem(pyuid.UID(txt(x['uid'])), B(x['info']), reserved=r)
     if t == 0x58:
-        return ud.UserIdentityNegotiationSubItem(B(x['prim']).decode('utf8'), B(x['sec']).decode('utf8'),
+        return ud.UserIdentityNegotiationSubItem(B(x['prim']).decode('utf8', 'surrogateescape'), B(x['sec']).decode('utf8', 'surrogateescape'),
                                                  x['type'], x['resp'], r)
     if t == 0x59:
-        return ud.UserIdentityNegotiationSubItemAc(txt(x['rsp']), r)
+        return ud.UserIdentityNegotiationSubItemAc(B(x['rsp']).decode('utf8', 'surrogateescape'), r)
     return ud.GenericUserDataSubItem(t, B(x['data']), r)
 
 
@@ -226,9 +226,9 @@ def sub_from_lib(o):
         return {'t': t, 'r': r, 'uid': str(o.sop_class_uid).encode('latin-1'), 'info': bytes(o.app_info)}
     if isinstance(o, ud.UserIdentityNegotiationSubItem):
         return {'t': t, 'r': r, 'type': o.user_identity_type, 'resp': o.positive_response_req,
-                'prim': o.primary_field.encode('utf8'), 'sec': o.secondary_field.encode('utf8')}
+                'prim': o.primary_field.encode('utf8', 'surrogateescape'), 'sec': o.secondary_field.encode('utf8', 'surrogateescape')}
     if isinstance(o, ud.UserIdentityNegotiationSubItemAc):
-        return {'t': t, 'r': r, 'rsp': o.server_response.encode('latin-1')}
+        return {'t': t, 'r': r, 'rsp': o.server_response.encode('utf8', 'surrogateescape')}
     if isinstance(o, ud.GenericUserDataSubItem):
         return {'t': t, 'r': r, 'data': bytes(o.user_data)}
     # an item of another level returned where a sub-item was expected (e.g. swallowed successor)
@@ -336,8 +336,15 @@ def rand_int(rng, bits):
     return rng.choice([0, 1, top, top // 2, top // 2 + 1, rng.randint(0, top)])
 
 
+def rand_ident(rng, hi, ascii_alphabet):
+    """Identity material: text (ASCII / multi-byte UTF-8) or, one time in four, binary (a kerberos ticket)."""
+    if rng.random() < 0.25:
+        return bytes(rng.randrange(256) for _ in range(rng.randint(0, hi)))
+    return rand_utf8(rng, hi, ascii_alphabet)
+
+
 def rand_sub(rng):
-    t = rng.choice([0x51, 0x52, 0x53, 0x54, 0x55, 0x56, 0x58, 0x59, 0x57, 0x60, 0xA0])
+    t = rng.choice([0x51, 0x52, 0x53, 0x54, 0x55, 0x56, 0x58, 0x59, 0x57, 0x60, 0xA0, 0x00, 0x59])
     r = rng.choice([0, 0, 0, 1, 255])
     if t == 0x51:
         return {'t': t, 'r': r, 'max': rand_int(rng, 32).to_bytes(4, 'big')}
@@ -353,9 +360,9 @@ def rand_sub(rng):
         return {'t': t, 'r': r, 'uid': rand_text(rng, 0, 64), 'info': bytes(rng.randrange(256) for _ in range(rng.choice([0, 1, 2, 3, 9, 40])))}
     if t == 0x58:
         return {'t': t, 'r': r, 'type': rng.choice([1, 2, 3, 4, 5]), 'resp': rng.choice([0, 1]),
-                'prim': rand_utf8(rng, 30, b'userNAME09'), 'sec': rand_utf8(rng, 30, b'pass!word')}
+                'prim': rand_ident(rng, 30, b'userNAME09'), 'sec': rand_ident(rng, 30, b'pass!word')}
     if t == 0x59:
-        return {'t': t, 'r': r, 'rsp': rand_text(rng, 0, 40, b'tokenTOKEN01')}
+        return {'t': t, 'r': r, 'rsp': rand_ident(rng, 40, b'tokenTOKEN01')}      # a SAML response is UTF-8 text, a kerberos ticket is binary
     return {'t': t, 'r': r, 'data': bytes(rng.randrange(256) for _ in range(rng.choice([0, 1, 4, 33])))}
 
 
